@@ -142,9 +142,34 @@ class Findings:
         return False, ids, cur
 
 
+class _Hang(Exception):
+    pass
+
+
+def _on_alarm(signum, frame):
+    raise _Hang()
+
+
+HANG_SECONDS = int(os.environ.get("VERIF_HANG_SECONDS", "180"))
+
+
 def evaluate(module, case):
+    """One oracle evaluation.  A single evaluation that runs for minutes is not a budget question: the functions under test work on short
+    strings, so it means the code under test does not terminate on this case; it is reported as a failure of relation <ID>/hang instead of
+    blocking the whole check (evaluators with their own, shorter alarms keep them: the outer alarm is restored afterwards)."""
+    import signal
     fn = module.EVALUATORS[case["kind"]]
-    out = fn(case)
+    use_alarm = hasattr(signal, "SIGALRM") and signal.getsignal(signal.SIGALRM) in (signal.SIG_DFL, None, _on_alarm)
+    if use_alarm:
+        signal.signal(signal.SIGALRM, _on_alarm)
+        signal.alarm(HANG_SECONDS)
+    try:
+        out = fn(case)
+    except _Hang:
+        return [("%s/hang" % module.PROPERTY, "evaluating %r did not finish within %d s" % (case, HANG_SECONDS))]
+    finally:
+        if use_alarm:
+            signal.alarm(0)
     return list(out) if out else []
 
 
